@@ -10,6 +10,56 @@ from ..core import *
 from ..domain import Domain, IntHavoc, LIB_ROOTS
 
 
+# opaque Python values (vectors, arrays of residual vectors) that the call-site obligations of C03 follow
+VL = z3.DeclareSort('Val')
+ABS = z3.Function('ABS', z3.IntSort(), VL, VL)            # Model.as_absolute_coordinates under base generation g
+SUBBASE = z3.Function('SUBBASE', z3.IntSort(), VL, VL)    # v - model.xbase under base generation g
+ROW = z3.Function('ROW', VL, z3.IntSort(), VL)            # rvec_list[i, :]
+MEANV = z3.Function('MEANV', VL, z3.IntSort(), VL)        # np.mean(rvec_list[:n, :], axis=0)
+REC_X = z3.Function('REC_X', z3.IntSort(), VL)            # incumbent record of model version v: absolute point,
+REC_R = z3.Function('REC_R', z3.IntSort(), VL)            #   stored residual,
+REC_NS = z3.Function('REC_NS', z3.IntSort(), z3.IntSort())  # sample count,
+REC_EN = z3.Function('REC_EN', z3.IntSort(), z3.IntSort())  # evaluation number
+NPT = z3.Function('NPT', z3.IntSort(), z3.IntSort())      # model.npt() of model version v
+# a returned "entry" (x, resid, obj, nsamples, eval number) and a returned Jacobian pair, identified by opaque tokens
+EX = z3.Function('EX', VL, VL)
+ER = z3.Function('ER', VL, VL)
+EO = z3.Function('EO', VL, VL)
+ENS = z3.Function('ENS', VL, z3.IntSort())
+EEN = z3.Function('EEN', VL, z3.IntSort())
+EJ = z3.Function('EJ', VL, VL)
+EJN = z3.Function('EJN', VL, VL)
+RS = z3.Function('RS', VL, VL)                            # remove_scaling(v, scaling_changes)
+COLDIV = z3.Function('COLDIV', VL, z3.IntSort(), VL)      # J with column i divided by scaling_changes[1][i]
+UNSC = z3.RecFunction('UNSC', VL, z3.IntSort(), VL)       # columns 0..i-1 un-scaled, in order
+_j, _i = z3.Const('j_', VL), z3.Int('i_')
+z3.RecAddDefinition(UNSC, [_j, _i], z3.If(_i <= 0, _j, COLDIV(UNSC(_j, _i - 1), _i - 1)))
+
+
+def isval(v):
+    return isz(v) and v.sort() == VL
+
+
+class RowsPrefix:
+    """rvec_list[:n, :]"""
+
+    def __init__(self, v, n):
+        self.v, self.n = v, n
+
+
+class BaseTok:
+    """model.xbase under base generation g"""
+
+    def __init__(self, g):
+        self.g = g
+
+
+class NanTestV(Unk):
+    def __init__(self, v):
+        Unk.__init__(self, 'isnan(values)')
+        self.v = v
+
+
 class EvalVals(Unk):
     """the array of residual vectors returned by the latest evaluate_objective (ghost-tagged havoc)"""
 
@@ -31,7 +81,11 @@ class LedgerDomain(Domain):
     def __init__(self, repo):
         Domain.__init__(self, repo)
         self.ghost_shapes = {'calls': 'int', 'pts': 'int', 'maxfun': 'int', 'pending': 'bool', 'nanflag': 'bool',
-                             'restarts': 'int'}
+                             'restarts': 'int',
+                             # C03 call-site ghosts: base generation, model version, the latest evaluation, samples offered so far
+                             'gen': 'int', 'mver': 'int', 'lastx': 'val', 'lastvals': 'val', 'lastk': 'int', 'offered': 'int',
+                             'lastslot': 'int', 'proj': 'bool', 'nptver': 'int',
+                             'ent': 'val', 'entjac': 'val', 'best': 'val', 'bestjac': 'val'}
         fs = self.field_shapes
         fs[('Controller', 'nf')] = 'int'
         fs[('Controller', 'nx')] = 'int'
@@ -47,11 +101,20 @@ class LedgerDomain(Domain):
             'A-lib: NumPy/SciPy calls have no effect on the tracked (integer/ghost) state',
             'floats and arrays are havoc in this domain (over-approximation): valid for arbitrary residual values']
         self.install_ledger_builtins()
+        self.builtins['remove_scaling'] = lambda eng, n, a, k, st: RS(a[0]) if isval(a[0]) else UNK
+        self.spec_funcs = {'UNSC': UNSC, 'COLDIV': COLDIV, 'EX': EX, 'ER': ER, 'EO': EO, 'ENS': ENS, 'EEN': EEN, 'EJ': EJ, 'EJN': EJN, 'RS': RS, 'ABS': ABS, 'SUBBASE': SUBBASE, 'ROW': ROW, 'MEANV': MEANV, 'REC_X': REC_X, 'REC_R': REC_R, 'REC_NS': REC_NS,
+                           'REC_EN': REC_EN, 'NPT': NPT}
 
     def name_shape(self, name):
+        if name in ('x', 'xnew', 'new_point', 'rvec_list', 'base_shift', 'x0', 'r0_avg', 'rvec', 'obj', 'obj0_avg', 'xmin', 'rmin', 'objmin',
+                    'xmin2', 'rmin2', 'objmin2'):
+            return 'val'
+        if name in ('jacmin', 'jacmin2', 'jac_eval_nums', 'jacmin_eval_nums', 'jacmin_eval_nums2'):
+            return 'opt:val'
         return {'exit_info': 'optexit', 'nruns_so_far': 'int', 'nf': 'int', 'nx': 'int', 'num_samples_run': 'int',
                 'number_of_samples': 'int', 'incremented_nx': 'bool', 'finished_growing': 'bool',
-                'linalg_error': 'optexit', 'nruns': 'int', 'last_successful_run': 'int'}.get(name)
+                'linalg_error': 'optexit', 'nruns': 'int', 'last_successful_run': 'int', 'knew': 'int', 'kmin': 'int',
+                'xmin_eval_num': 'int', 'x_eval_num': 'int', 'xmin_eval_num2': 'int', 'nsamples_min': 'int', 'nsamples2': 'int'}.get(name)
 
     def default_param(self, fi, nm, st):
         if nm == 'self' and fi.cls:
@@ -73,10 +136,129 @@ class LedgerDomain(Domain):
         b['ParameterList.__call__'] = self.b_params
         b['np.any'] = self.b_np_any
         b['np.isnan'] = self.b_np_isnan
+        b['np.mean'] = self.b_np_mean
+        b['Model.as_absolute_coordinates'] = lambda eng, n, a, k, st: ABS(st.heap[('G', 'gen')], self.toval(a[1]))
+        b['Model.xopt'] = lambda eng, n, a, k, st: REC_X(st.heap[('G', 'mver')]) if (k.get('abs_coordinates') is not None or len(a) > 1) and \
+            z3.is_true(z3.simplify(self.truth(k.get('abs_coordinates', a[1] if len(a) > 1 else z3.BoolVal(False)), st))) else z3.Const(fresh_name('xopt'), VL)
+        b['Model.ropt'] = lambda eng, n, a, k, st: REC_R(st.heap[('G', 'mver')])
+        b['Model.npt'] = lambda eng, n, a, k, st: NPT(st.heap[('G', 'nptver')])
+
+    def spec_call(self, eng, name, e, st):
+        if name == 'newent':
+            # ghost: a fresh entry token defined by the five returned values (conservative extension: the token is new)
+            a = [eng.ev(x, st) for x in e.args]
+            t = z3.Const(fresh_name('ent'), VL)
+            for f, v in zip((EX, ER, EO, ENS, EEN), a):
+                if isz(v) and v.sort() == f.range():
+                    st.assume(f(t) == v)
+            return t
+        return Domain.spec_call(self, eng, name, e, st)
+
+    def assign_stmt(self, eng, s, st):
+        # J[:, i] = J[:, i] / scaling_changes[1][i]   (the Jacobian un-scaling statement of solve)
+        try:
+            t = s.targets[0]
+            if (len(s.targets) == 1 and isinstance(t, ast.Subscript) and isinstance(t.value, ast.Name) and isinstance(t.slice, ast.Tuple)
+                    and len(t.slice.elts) == 2 and isinstance(t.slice.elts[0], ast.Slice) and t.slice.elts[0].upper is None
+                    and t.slice.elts[0].lower is None and isinstance(s.value, ast.BinOp) and isinstance(s.value.op, ast.Div)
+                    and ast.dump(s.value.left) == ast.dump(ast.Subscript(value=t.value, slice=t.slice, ctx=ast.Load())).replace('Store()', 'Load()')
+                    and ast.unparse(s.value.right) == 'scaling_changes[1][%s]' % ast.unparse(t.slice.elts[1])):
+                cur = st.env.get(t.value.id)
+                cur = cur.val if isinstance(cur, Opt) else cur
+                i = eng.ev(t.slice.elts[1], st)
+                if isval(cur) and isint(i):
+                    st.env[t.value.id] = COLDIV(cur, i)
+                    return True
+        except Exception:
+            pass
+        return False
+
+    def b_np_mean(self, eng, node, args, kw, st):
+        if args and isinstance(args[0], RowsPrefix) and 'axis' in kw and z3.is_int_value(kw['axis']) and kw['axis'].as_long() == 0:
+            return MEANV(args[0].v, args[0].n)
+        return UNK
+
+    def load_subscript(self, eng, e, st):
+        # rvec_list[i, :]  /  rvec_list[:n, :]  on an opaque value;  model.nsamples[model.kopt], model.eval_num[model.kopt]
+        if isinstance(e.value, ast.Attribute) and e.value.attr in ('nsamples', 'eval_num') and isinstance(e.slice, ast.Attribute) \
+                and e.slice.attr == 'kopt' and ast.dump(e.value.value) == ast.dump(e.slice.value):
+            owner = eng.ev(e.value.value, st)
+            if isinstance(owner, Ref) and owner.cls == 'Model':
+                return (REC_NS if e.value.attr == 'nsamples' else REC_EN)(st.heap[('G', 'mver')])
+        base = eng.ev(e.value, st)
+        if isval(base) and isinstance(e.slice, ast.Tuple) and len(e.slice.elts) == 2:
+            a, b2 = e.slice.elts
+            full = isinstance(b2, ast.Slice) and b2.lower is None and b2.upper is None and b2.step is None
+            if full and isinstance(a, ast.Slice) and a.lower is None and a.step is None and a.upper is not None:
+                n = eng.ev(a.upper, st)
+                if isint(n):
+                    return RowsPrefix(base, n)
+            elif full and not isinstance(a, ast.Slice):
+                i = eng.ev(a, st)
+                if isint(i):
+                    return ROW(base, i)
+            return UNK
+        if isval(base):
+            return UNK
+        return Domain.load_subscript(self, eng, e, st)
+
+    def store_subscript(self, eng, t, v, st):
+        base = eng.ev(t.value, st)
+        if isval(base) and isinstance(t.value, ast.Name):
+            # element store into an opaque value bound to a local: it becomes a new opaque value (A-alias: by value)
+            if not isinstance(t.slice, ast.Slice):
+                eng.ev(t.slice, st)
+            st.env[t.value.id] = z3.Const(fresh_name(t.value.id), VL)
+            return
+        return Domain.store_subscript(self, eng, t, v, st)
+
+    def load_attr(self, eng, base, attr, st, node):
+        b0 = base.val if isinstance(base, Opt) else base
+        if isinstance(b0, Ref) and b0.cls == 'Model':
+            if attr == 'projections':
+                return st.heap[('G', 'proj')]
+            if attr == 'xbase':
+                return BaseTok(st.heap[('G', 'gen')])
+        return Domain.load_attr(self, eng, base, attr, st, node)
+
+    def binop(self, op, a, b, st, node=None):
+        if isinstance(b, BaseTok) and op == '-' and isval(a):
+            r = SUBBASE(b.g, a)
+            # real arithmetic + idempotence of the clip (non-projection models): xbase + clip((xbase + clip(p)) - xbase) == xbase + clip(p)
+            if z3.is_app(a) and a.decl().name() == 'ABS':
+                st.assume(z3.Implies(z3.And(z3.Not(st.heap[('G', 'proj')]), a.arg(0) == b.g), ABS(b.g, r) == a))
+            return r
+        if isval(a) or isval(b):
+            return z3.Const(fresh_name('v'), VL)
+        return Domain.binop(self, op, a, b, st, node)
+
+    def augassign(self, op, cur, inc, st, node):
+        if isval(cur):
+            return z3.Const(fresh_name('v'), VL)
+        return Domain.augassign(self, op, cur, inc, st, node)
+
+    def compare(self, op, a, b, st, node=None):
+        if isval(a) and isval(b) and op in ('==', '!='):
+            return (a == b) if op == '==' else (a != b)
+        return Domain.compare(self, op, a, b, st, node)
+
+    def is_same(self, a, b, st):
+        # opaque values are never None: everything that may be None is an Opt (shape 'opt:val')
+        return Domain.is_same(self, a, b, st)
+
+    def on_assign_name(self, name, v, st):
+        if is_unk(v) and self.name_shape(name) == 'val':
+            return z3.Const(fresh_name(name), VL)
+        if is_unk(v) and not isinstance(v, IntHavoc) and self.name_shape(name) in ('int',):
+            return fint(name)
+        return v
+
+    def toval(self, v):
+        return v if isval(v) else z3.Const(fresh_name('v'), VL)
 
     def fresh(self, shape, name, st=None):
-        if shape == 'evalvals':
-            return EvalVals()
+        if shape == 'evalvals' or shape == 'val':
+            return z3.Const(fresh_name(name), VL)
         return Domain.fresh(self, shape, name, st)
 
     def init_state(self, st, fi, con):
@@ -134,13 +316,14 @@ class LedgerDomain(Domain):
         return r
 
     def b_np_isnan(self, eng, node, args, kw, st):
-        if args and isinstance(args[0], EvalVals):
-            return NanTest()
+        if args and isval(args[0]):
+            return NanTestV(args[0])
         return UNK
 
     def b_np_any(self, eng, node, args, kw, st):
-        if args and isinstance(args[0], NanTest):
-            return st.heap[('G', 'nanflag')]
+        if args and isinstance(args[0], NanTestV):
+            # "the values of the latest evaluation contain a NaN" is the ghost flag; for any other value it is unknown
+            return z3.If(args[0].v == st.heap[('G', 'lastvals')], st.heap[('G', 'nanflag')], fbool('anynan'))
         return UNK
 
     def lib_call(self, eng, e, name, args, kwargs, st):
@@ -163,7 +346,7 @@ class LedgerDomain(Domain):
         con = frame.contract
         if con is None or len(eng.frames) != 1:
             return []
-        ordinal = frame.loop_ord.get(id(loop), -1)
+        ordinal = frame.loop_ord.get(id(loop), '?')
         if ordinal in con.loops and any(c.label.startswith('!nodefault') for c in con.loops[ordinal]):
             return []
         w = set()
@@ -172,6 +355,9 @@ class LedgerDomain(Domain):
                 if isinstance(n, ast.Call):
                     w |= self.call_frame(eng, n)
         if not (w & {'nf', 'nx', 'calls', 'pts', 'pending'}):
+            if 'offered' in w and isinstance(loop, ast.For):
+                # the `for i in range(1, num_samples_run): model.add_new_sample(k, rvec_list[i, :])` idiom
+                return clauses([('samples offered so far:: G.offered == i_', 'C02', 'C03', 'C17')])
             return []
         return getattr(con, 'ledger_inv', [])
 
@@ -179,13 +365,13 @@ class LedgerDomain(Domain):
         con = frame.contract
         if con is None or len(eng.frames) != 1:
             return
-        ordinal = frame.loop_ord.get(id(loop), -1)
-        key = 'break@loop%d' % ordinal
+        ordinal = frame.loop_ord.get(id(loop), '?')
+        key = 'break@%s' % ordinal
         if key in con.asserts:
             # ordinal of this break among the breaks of the loop (source order)
             brks = sorted(own_breaks(loop), key=lambda n: n.lineno)
             k = [n.lineno for n in brks].index(line) + 1 if line in [n.lineno for n in brks] else 0
             for c in con.asserts[key]:
                 v = eng.eval_clause(c, st, frame.old)
-                eng.oblige(st, v, 'assert', c.label, c.tags, line, site='loop%d.break#%d' % (ordinal, k))
-            eng.cover(st, 'loop%d.break#%d' % (ordinal, k), con.tags, line)
+                eng.oblige(st, v, 'assert', c.label, c.tags, line, site='%s.break#%d' % (ordinal, k))
+            eng.cover(st, '%s.break#%d' % (ordinal, k), con.tags, line)
